@@ -17,9 +17,9 @@ RULE = ("(a) for every connected graph in the box, 3 vertex labelings and every 
         "BFS over call histories on ONE shared evaluator (3 distinctly named motifs on the same vertex set x 2 focal "
         "vertices x 2 phi x 3 u-assignments = 36 letters; state = contents of both caches), every answer compared "
         "with a fresh evaluator and with the oracle; non-trivial = graph with >= 3 edges / cache state with >= 2 keys")
-BOUNDS = {"quick": "all 30 connected atlas graphs on 2..5 vertices and the 6-vertex ones with <= 7 edges, cycles C6..C8; one evaluator shared by all motifs (2 orders); histories: BFS to fixpoint of "
+BOUNDS = {"quick": "all 30 connected atlas graphs on 2..5 vertices and the 6- and 7-vertex ones with <= 7 edges, cycles C6..C8; one evaluator shared by all motifs (2 orders); histories: BFS to fixpoint of "
                    "the cache-state space (cap depth 8; 64 states reached at depth 6)",
-          "thorough": "+ all connected 6-vertex atlas graphs with <= 11 edges, K6, cycles to C10"}
+          "thorough": "+ all connected 6-vertex atlas graphs with <= 11 edges, 7-vertex ones with <= 9 edges, K6, cycles to C10"}
 ASSUMPTIONS = ["motifs on a shared evaluator are distinctly named (the property's premise)",
                "the polynomial identity covers all real phi and u; vertex ids are ints"]
 
@@ -32,8 +32,10 @@ def graphs(tier, seed):
         out.append((n, [(i, (i + 1) % n) if i < (i + 1) % n else ((i + 1) % n, i) for i in range(n)]))
     if tier == "quick":
         out += enumr.atlas_connected(6, 6, max_edges=7)
+        out += enumr.atlas_connected(7, 7, max_edges=7)    # trees and unicyclic graphs on 7 vertices
     if tier == "thorough":
         out += enumr.atlas_connected(6, 6, max_edges=11)
+        out += enumr.atlas_connected(7, 7, max_edges=9)
         out.append((6, enumr.pairs(6)))
         for n in (9, 10):
             out.append((n, [tuple(sorted((i, (i + 1) % n))) for i in range(n)]))
@@ -42,7 +44,9 @@ def graphs(tier, seed):
 
 def instances(tier, seed):
     for n, edges in graphs(tier, seed):
-        kinds = ("identity", "reversed", "sparse") if len(edges) <= 11 else ("identity", "sparse")
+        kinds = ("identity", "reversed", "sparse") if (len(edges) <= 11 and n <= 6) else ("identity", "sparse")
+        if n == 7 and tier == "quick":
+            kinds = ("sparse",)
         for lab in enumr.relabelings(n, seed, kinds=kinds):
             yield {"kind": "identity", "n": n, "edges": edges, "labels": lab}
     yield {"kind": "history"}
